@@ -211,4 +211,4 @@ def run(ctx):
     ctx.run_parallel('shard_exhaustive', extra=(L,))
     ctx.exhaustive('every line of length ≤ %d over the 16-symbol alphabet %r × every caret −2..len+2 and None × 4 option sets (consistency)' % (L, ''.join(SMALL)))
     ctx.run_cases('roundtrip', FIXED_RT)
-    ctx.run_parallel('shard_random', extra=(ctx.pick(150, 5000),))
+    ctx.run_parallel('shard_random', extra=(ctx.pick(150, 2000),))
